@@ -32,7 +32,7 @@ STUBS = [
 FLOAT_MODE = "R-mode exact reals / integers"
 BOUNDS = {"quick": dict(noise_param_subsets="all 1- and 2-subsets of 9 numeric parameters", device_shapes=8),
           "thorough": dict(noise_param_subsets="same + 3-subsets", device_shapes=12)}
-OUTSIDE = ["EmulationConfig / Results / State / Operator (QuTiP-backed representations)", "SimConfig<->NoiseModel beyond parameter mapping",
+OUTSIDE = ["Results and QuTiP-backed State / Operator classes (EmulationConfig is covered at representation level with StateRepr)", "SimConfig<->NoiseModel (pulser_simulation imports QuTiP)",
            "aliasing is decided by identity checks and mutation, not by the solver"]
 
 
@@ -314,3 +314,113 @@ def kernels(tier):
 
 def harness(kernel, shape):
     return {"noise": h_noise, "device": h_device, "register": h_register}[kernel](shape)
+
+
+# ---- K3 (partial): EmulationConfig round trip (representation level) --------
+
+_k17, _h17, _setup17 = kernels, harness, setup
+
+
+def setup():
+    _setup17()
+    import pulser.backend.config as bc
+    import pulser.backend.observable as bo
+    import pulser.backend.default_observables as bd
+    import pulser.json.abstract_repr.backend as jb
+
+    facade.install(extra_np=(bc, bo, bd, jb), extra_float=(bc, bo))
+
+
+def to_plain(x):
+    """Structural rendering of an abstract-repr tree (proxies kept)."""
+    import pulser.math as pm
+
+    if hasattr(x, "_to_abstract_repr") and not isinstance(x, (dict, list, tuple)):
+        return to_plain(x._to_abstract_repr())
+    if isinstance(x, dict):
+        return {k: to_plain(v) for k, v in x.items()}
+    if isinstance(x, (list, tuple)):
+        return [to_plain(v) for v in x]
+    if isinstance(x, np.ndarray):
+        return [to_plain(v) for v in x.tolist()]
+    return core._np_item(x)
+
+
+def h_config(shape):
+    def h(inp):
+        jsonfacade.reset()
+        from pulser.backend import BitStrings, CorrelationMatrix, EmulationConfig, Energy, EnergyVariance, Fidelity, Occupation
+        from pulser.backend.state import StateRepr
+        from pulser.noise_model import NoiseModel
+
+        def times(tag, n):
+            ts = [inp.real("%s_t%d" % (tag, i), 0, 1) for i in range(n)]
+            for a, b in zip(ts, ts[1:]):
+                inp.assume(a < b)
+            return ts
+
+        obs_list = []
+        for i, kind in enumerate(shape["obs"]):
+            et = times("o%d" % i, 2) if shape["times"][i] else None
+            kw = dict(evaluation_times=et, tag_suffix=("s%d" % i if shape.get("suffix") else None))
+            if kind == "bitstrings":
+                obs_list.append(BitStrings(num_shots=shape.get("shots", 100), **kw))
+            elif kind == "occupation":
+                obs_list.append(Occupation(**kw))
+            elif kind == "correlation":
+                obs_list.append(CorrelationMatrix(**kw))
+            elif kind == "energy":
+                obs_list.append(Energy(**kw))
+            elif kind == "variance":
+                obs_list.append(EnergyVariance(**kw))
+            elif kind == "fidelity":
+                st = StateRepr.from_state_amplitudes(eigenstates=("r", "g"), amplitudes={"rr": 1.0, "gg": 1.0})
+                obs_list.append(Fidelity(st, **kw))
+        cfg_kw = dict(observables=obs_list, with_modulation=shape.get("mod", False))
+        if shape.get("default_times") == "sym":
+            cfg_kw["default_evaluation_times"] = times("d", 3)
+        elif shape.get("default_times") == "full":
+            cfg_kw["default_evaluation_times"] = "Full"
+        if shape.get("noise"):
+            cfg_kw["noise_model"] = NoiseModel(relaxation_rate=inp.real("relax", 0, 1), dephasing_rate=inp.real("deph", 0, 1))
+        if shape.get("interaction"):
+            x = inp.real("U01", -10, 10)
+            cfg_kw["interaction_matrix"] = [[0.0, x], [x, 0.0]]
+        if shape.get("prefer") is not None:
+            cfg_kw["prefer_device_noise_model"] = shape["prefer"]
+        if shape.get("init"):
+            cfg_kw["initial_state"] = StateRepr.from_state_amplitudes(eigenstates=("r", "g"), amplitudes={"rg": 1.0})
+        try:
+            cfg = EmulationConfig(**cfg_kw)
+        except (ValueError, TypeError):
+            raise core.Infeasible()
+        s = cfg.to_abstract_repr()  # real schema validation
+        cfg2 = EmulationConfig.from_abstract_repr(s)
+        a, b = to_plain(cfg._backend_options), to_plain(cfg2._backend_options)
+        obs = [("k3:config_same_keys", set(a) == set(b))]
+        for k in a:
+            if k in b:
+                obs.append(("k3:config_field:" + k, l2.snap_equal(a[k], b[k])))
+        # decoding twice gives independent objects
+        cfg3 = EmulationConfig.from_abstract_repr(s)
+        obs.append(("k3:config_decodes_independent", cfg3 is not cfg2 and cfg3._backend_options is not cfg2._backend_options
+                    and all(x is not y for x, y in zip(cfg3.observables, cfg2.observables))))
+        return obs
+
+    return h
+
+
+def kernels(tier):
+    ks = _k17(tier)
+    ks.append(("config", dict(obs=["bitstrings"], times=[True])))
+    ks.append(("config", dict(obs=["bitstrings", "occupation"], times=[False, True], default_times="sym", suffix=True)))
+    ks.append(("config", dict(obs=["correlation", "energy", "variance"], times=[True, False, False], default_times="full", mod=True)))
+    ks.append(("config", dict(obs=["occupation"], times=[False], noise=True, interaction=True, prefer=True)))
+    ks.append(("config", dict(obs=["fidelity", "bitstrings"], times=[True, False], init=True, shots=7, prefer=False)))
+    return ks
+
+
+def harness(kernel, shape):
+    if kernel == "config":
+        return h_config(shape)
+    return _h17(kernel, shape)
